@@ -112,7 +112,8 @@ uint32_t* get_distribution(
       return NULL;
     }
 
-    if (block->base + block->size >= offset + length)
+    if (past_first_block &&
+        block->base + block->size >= (uint64_t) offset + (uint64_t) length)
       break;
   }
 
@@ -384,7 +385,8 @@ define_function(data_serial_correlation)
       return_float(YR_UNDEFINED);
     }
 
-    if (block->base + block->size >= offset + length)
+    if (past_first_block &&
+        block->base + block->size >= (uint64_t) offset + (uint64_t) length)
       break;
   }
 
@@ -520,7 +522,8 @@ define_function(data_monte_carlo_pi)
       return_float(YR_UNDEFINED);
     }
 
-    if (block->base + block->size >= offset + length)
+    if (past_first_block &&
+        block->base + block->size >= (uint64_t) offset + (uint64_t) length)
       break;
   }
 
